@@ -193,7 +193,38 @@ func (p *Pool) Do(fn string, args []any, deadline time.Time) []JobResult {
 					p.workers[wi] = nil
 					continue
 				}
-				line, err := w.out.ReadBytes('\n')
+				// watchdog: a job that blocks for ever (a real deadlock in the code under test outside the controlled
+				// scheduler, e.g. on a leaked lock) must not hang the check
+				type rd struct {
+					line []byte
+					err  error
+				}
+				ch := make(chan rd, 1)
+				go func() {
+					l, e := w.out.ReadBytes('\n')
+					ch <- rd{l, e}
+				}()
+				limit := 10 * time.Minute
+				if !deadline.IsZero() {
+					if d := time.Until(deadline) + 90*time.Second; d < limit {
+						limit = d
+					}
+					if limit < 2*time.Minute {
+						limit = 2 * time.Minute
+					}
+				}
+				var line []byte
+				var err error
+				select {
+				case r := <-ch:
+					line, err = r.line, r.err
+				case <-time.After(limit):
+					res[i] = JobResult{Err: fmt.Sprintf("worker hung: no reply to job %s %s within %v (blocked for ever?)", fn, string(b), limit.Round(time.Second)), Done: true}
+					w.cmd.Process.Kill()
+					w.cmd.Wait()
+					p.workers[wi] = nil
+					continue
+				}
 				if err != nil {
 					res[i] = JobResult{Err: "worker died: " + err.Error(), Done: true}
 					w.cmd.Process.Kill()
